@@ -5,7 +5,10 @@ From FCA Require Export Corr.Common Model.LatticeOrder Spec.LatticeOrderSpec.
 
 Record c03_case := {
   k_table : table;
-  k_algo : nat;                 (* 0 CbO   1 Lindig   2 default (= Lindig)   3 Sofia (large L_max) *)
+  k_algo : nat;                 (* build path.  from_context: 0 CbO  1 Lindig  2 default (= Lindig)  3 Sofia;
+                                   4 lindig_algorithm's own lattice  5 ConceptLattice(shuffled list)
+                                   6 grown with add() from [bottom, top];  +10: then mutated by a
+                                   remove / add history (the listing is the CURRENT concept list) *)
   k_err : nat;                  (* 0 = the implementation raised nothing *)
   k_concepts : list concept;    (* (extent_i, intent_i) in listing order *)
   k_pre : option (list concept * assoc);   (* Lindig: lindig_algorithm's lattice before re-sorting:
@@ -18,6 +21,7 @@ Record c03_case := {
   k_tops : list nat; k_bots : list nat;
   k_queries : list (nat * list nat * option nat);  (* 0 meet 1 join 2 infimum 3 supremum *)
   k_chains : option (list (list nat));
+  k_chains_sorted : option (list (list nat));   (* _get_chains(is_concepts_sorted=True); sorted listings only *)
   (* second round, asked after the aliasing probe (returned sets mutated in place, add_concept /
      remove_concept run on shallow copies of children_dict / parents_dict): the lattice is
      immutable for its users, so every answer must be what it was *)
@@ -55,9 +59,14 @@ Definition queries_match (n : nat) (down up : nat -> list nat)
                                        end)
                     end) qs.
 
+Definition sorted_path (c : c03_case) : bool := Nat.ltb (k_algo c) 4.
+Definition mutated (c : c03_case) : bool := Nat.leb 10 (k_algo c).
+
 Definition model_matches_nocache (c : c03_case) : bool :=
   let cs := k_concepts c in let n := length cs in
-  list_eqb concept_eqb (sort_concepts cs) cs &&
+  (if sorted_path c then list_eqb concept_eqb (sort_concepts cs) cs else true) &&
+  (if sorted_path c then opt_chains_eqb (get_chains_sorted_of cs (parents_nocache cs)) (k_chains_sorted c)
+   else true) &&
   lists_eqb (per_index n (descendants_nocache cs)) (k_desc c) &&
   lists_eqb (per_index n (ancestors_nocache cs)) (k_anc c) &&
   lists_eqb (per_index n (children_nocache cs)) (k_chi c) &&
@@ -88,6 +97,7 @@ Definition model_matches_lindig (c : c03_case) (pre : list concept) (dict : asso
       nat_list_eqb (k_bots c) (match ll_bottom l with Some x => [x] | None => [] end) &&
       queries_match n down up (k_queries c) &&
       opt_chains_eqb (get_chains_of cs (get (ll_parents l))) (k_chains c) &&
+      opt_chains_eqb (get_chains_sorted_of cs (get (ll_parents l))) (k_chains_sorted c) &&
       (* the un-resorted lattice: leq table pre-filled from the closure when it has < 10 elements *)
       (let m := length pre in
        match closed_relation ascending 30 dict with
@@ -143,38 +153,53 @@ Definition completeb (t : table) (cs : list concept) : bool :=
 Definition c03_spec_ok (c : c03_case) : bool :=
   let t := k_table c in let cs := k_concepts c in
   let exts := map fst cs in let ints := map snd cs in let n := length cs in
+  let complete := completeb t cs in
   Nat.eqb (k_err c) 0 && wfb t && round2_same c &&
   (* the lattice is the set of all concepts of the table, each once *)
   forallb (fun cc => is_conceptb t (fst cc) (snd cc)) cs && distinctb exts &&
-  completeb t cs &&
+  (mutated c || complete) &&
   (* order = proper inclusion of extents; children / parents = covers *)
   lists_eqb (k_desc c) (map (spec_descendants exts) (seq 0 n)) &&
   lists_eqb (k_anc c) (map (spec_ancestors exts) (seq 0 n)) &&
   lists_eqb (k_chi c) (map (spec_children exts) (seq 0 n)) &&
   lists_eqb (k_par c) (map (spec_parents exts) (seq 0 n)) &&
   matrix_eqb (k_leq c) (matrix n (spec_leq exts)) &&
-  (* top first with all objects, bottom last with the objects having every attribute *)
-  opt_nat_eqb (k_top c) (Some 0) && opt_nat_eqb (k_bot c) (Some (n - 1)) &&
-  nat_list_eqb (k_tops c) [0] && nat_list_eqb (k_bots c) [n - 1] &&
-  nat_list_eqb (set_at exts 0) (all_objs t) &&
-  nat_list_eqb (set_at exts (n - 1)) (ext t (all_attrs t)) &&
-  sizes_sortedb exts &&
-  (* meet: intersection of extents; join: intersection of intents *)
+  (* the top has all objects, the bottom the objects having every attribute; from_context lists
+     by non-increasing support with the top first and the bottom last *)
+  match k_top c, k_bot c with
+  | Some kt, Some kb =>
+      Nat.ltb kt n && Nat.ltb kb n &&
+      nat_list_eqb (k_tops c) [kt] && nat_list_eqb (k_bots c) [kb] &&
+      nat_list_eqb (set_at exts kt) (all_objs t) &&
+      nat_list_eqb (set_at exts kb) (ext t (all_attrs t)) &&
+      (if sorted_path c then Nat.eqb kt 0 && Nat.eqb kb (n - 1) && sizes_sortedb exts else true) &&
+      match k_chains c with
+      | None => false
+      | Some chains => chains_okb exts kt chains
+      end &&
+      (if sorted_path c
+       then match k_chains_sorted c with None => false | Some chains => chains_okb exts kt chains end
+       else true)
+  | _, _ => false
+  end &&
+  (* meet: intersection of extents; join: intersection of intents (complete concept set);
+     after removals: the greatest lower / least upper bound among the listed concepts, if any *)
   forallb (fun q => match q with
                     | (kind, Sq, r) =>
                         let S' := match Sq with [] => seq 0 n | _ => Sq end in
-                        match r with
-                        | None => false
-                        | Some k => match kind with
-                                    | 0 | 2 => spec_meet_ok t exts S' k
-                                    | _ => spec_join_ok t ints S' k
-                                    end
-                        end
+                        if complete
+                        then match r with
+                             | None => false
+                             | Some k => match kind with
+                                         | 0 | 2 => spec_meet_ok t exts S' k
+                                         | _ => spec_join_ok t ints S' k
+                                         end
+                             end
+                        else match kind with
+                             | 0 | 2 => spec_bound_ok (is_glb exts S') n r
+                             | _ => spec_bound_ok (is_lub exts S') n r
+                             end
                     end) (k_queries c) &&
-  match k_chains c with
-  | None => false
-  | Some chains => chains_okb exts 0 chains
-  end &&
   (* the un-resorted Lindig lattice answers leq by inclusion as well *)
   match k_pre c with
   | None => true
